@@ -148,7 +148,7 @@ def run(pid, tier, seed, res, seeds_extra=None, only=None):
                 deps[j] = deps[j] + [CONST0 + j]
         SUBSTUB = n_ + 1 + n_  # the input stub of a nested DAG: a non-debug, non-setup node of the outer DAG
         mnodes = list(range(n_))
-        if v["via"] in ("subarg", "subflag"):
+        if v["via"] in kgraph.SUBVIA:
             deps[SUBSTUB] = [v["src"]]
             mnodes.append(SUBSTUB)
         else:
@@ -190,7 +190,7 @@ def run(pid, tier, seed, res, seeds_extra=None, only=None):
             if mv is None:
                 res.hit(pid, "divergence", "no model result for a build-rule case", dict(base, kind="no-result"))
                 continue
-            owner = "C11" if (v["dst"] in vc["setup"] and v["via"] not in ("subarg", "subflag")) else "C13"
+            owner = "C11" if (v["dst"] in vc["setup"] and v["via"] not in kgraph.SUBVIA) else "C13"
             if mv[0] == 1 and built[0] != "ok":
                 res.hit(owner, "divergence", "K-build: a DAG the build rules accept was rejected: %s (extra dependency %s)" % (built[1], v), dict(base, kind="divergence"))
             elif mv[0] == 0 and built[0] == "ok":
@@ -313,6 +313,13 @@ def run(pid, tier, seed, res, seeds_extra=None, only=None):
                         if len(set(cps)) == len(cps) and a["order"] != b["order"]:
                             res.hit("C07", "monitor", "max_concurrency=1 without ties: execution order %s under seed 0, %s under seed %d" % (a["order"], b["order"], sd),
                                     dict(engine="kgraph", case=case, kind="monitor", seeds=[0, sd]))
+                        # an executor over the whole DAG schedules by the same table: same unique order
+                        for t_ in (a, b):
+                            if len(set(cps)) == len(cps) and t_.get("xorder") is not None and t_["xorder"] != t_["order"]:
+                                for p_ in ("C07", "C06"):
+                                    res.hit(p_, "monitor", "max_concurrency=1 without ties: a call executes in the order %s, an executor over the whole DAG in the order %s" % (t_["order"], t_["xorder"]),
+                                            dict(engine="kgraph", case=case, kind="monitor", seeds=[0, sd]))
+                                break
         dist["hash_seeds"] = len(seeds) + 1
     res.distribution["kgraph"] = dict(dist)
     res.engine_info["kgraph"] = dict(cases=len(cases), model_evaluations=len(items))
